@@ -1,5 +1,5 @@
 // auto-generated: "lalrpop 0.23.1"
-// sha3: b8ecb330336568fde0af6fcc22e348790080d72e43389732f12edbad7e65d819
+// sha3: f227290c76082fbe2c94e0c10dee752ca70fce541470ac9207db7df50bab99a3
 use crate::rt::*;
 #[allow(unused_extern_crates)]
 extern crate lalrpop_util as __lalrpop_util;
@@ -66,6 +66,7 @@ mod __parse__N0 {
         _40L((i64, i64, i64)),
         _40R((i64, i64, i64)),
         N0((i64, Tree, i64)),
+        N1((i64, Tree, i64)),
         ____N0((i64, Tree, i64)),
     }
 
@@ -79,29 +80,13 @@ mod __parse__N0 {
     {
         let mut __result: (Option<(i64, Tok, i64)>, __Nonterminal<>);
         match __lookahead {
-            Some((__loc1, __tok @ Tok('a', _, _, _), __loc2)) => {
-                let __sym0 = (__loc1, (__tok), __loc2);
-                __result = __state2(__tokens, __sym0, core::marker::PhantomData::<()>)?;
-            }
             Some((__loc1, __tok @ Tok('b', _, _, _), __loc2)) => {
                 let __sym0 = (__loc1, (__tok), __loc2);
-                __result = __state3(__tokens, __sym0, core::marker::PhantomData::<()>)?;
-            }
-            None => {
-                let __start: i64 = __lookahead.as_ref().map(|o| o.0.clone()).unwrap_or_default();
-                let __end = __start.clone();
-                let __nt = super::__action12::<>(&__start, &__end);
-                let __nt = __Nonterminal::N0((
-                    __start,
-                    __nt,
-                    __end,
-                ));
-                __result = (__lookahead, __nt);
+                __result = __state2(__tokens, __sym0, core::marker::PhantomData::<()>)?;
             }
             _ => {
                 #[allow(clippy::needless_raw_string_hashes)]
                 let __expected = alloc::vec![
-                    r###""t0""###.to_string(),
                     r###""t1""###.to_string(),
                 ];
                 return Err(
@@ -200,27 +185,15 @@ mod __parse__N0 {
             None => None,
         };
         match __lookahead {
-            Some((__loc1, __tok @ Tok('a', _, _, _), __loc2)) => {
+            Some((__loc1, __tok @ Tok('c', _, _, _), __loc2)) => {
                 let __sym1 = (__loc1, (__tok), __loc2);
-                __result = __state4(__tokens, __sym0, __sym1, core::marker::PhantomData::<()>)?;
-                return Ok(__result);
-            }
-            None => {
-                let __start = __sym0.0.clone();
-                let __end = __sym0.2.clone();
-                let __nt = super::__action14::<>(__sym0);
-                let __nt = __Nonterminal::N0((
-                    __start,
-                    __nt,
-                    __end,
-                ));
-                __result = (__lookahead, __nt);
+                __result = __state3(__tokens, __sym0, __sym1, core::marker::PhantomData::<()>)?;
                 return Ok(__result);
             }
             _ => {
                 #[allow(clippy::needless_raw_string_hashes)]
                 let __expected = alloc::vec![
-                    r###""t0""###.to_string(),
+                    r###""t2""###.to_string(),
                 ];
                 return Err(
                     match __lookahead {
@@ -244,52 +217,6 @@ mod __parse__N0 {
     }
 
     fn __state3<
-        __TOKENS: Iterator<Item=Result<(i64, Tok, i64),__lalrpop_util::ParseError<i64, Tok, u64>>>,
-    >(
-        __tokens: &mut __TOKENS,
-        __sym0: (i64, Tok, i64),
-        _: core::marker::PhantomData<()>,
-    ) -> Result<(Option<(i64, Tok, i64)>, __Nonterminal<>), __lalrpop_util::ParseError<i64, Tok, u64>>
-    {
-        let mut __result: (Option<(i64, Tok, i64)>, __Nonterminal<>);
-        let __lookahead = match __tokens.next() {
-            Some(Ok(v)) => Some(v),
-            Some(Err(e)) => return Err(e),
-            None => None,
-        };
-        match __lookahead {
-            Some((__loc1, __tok @ Tok('b', _, _, _), __loc2)) => {
-                let __sym1 = (__loc1, (__tok), __loc2);
-                __result = __state5(__tokens, __sym0, __sym1, core::marker::PhantomData::<()>)?;
-                return Ok(__result);
-            }
-            _ => {
-                #[allow(clippy::needless_raw_string_hashes)]
-                let __expected = alloc::vec![
-                    r###""t1""###.to_string(),
-                ];
-                return Err(
-                    match __lookahead {
-                        Some(__token) => {
-                            __lalrpop_util::ParseError::UnrecognizedToken {
-                                token: __token,
-                                expected: __expected,
-                            }
-                        }
-                        None => {
-                            let __location = __sym0.2.clone();
-                            __lalrpop_util::ParseError::UnrecognizedEof {
-                                location: __location,
-                                expected: __expected,
-                            }
-                        }
-                    }
-                )
-            }
-        }
-    }
-
-    fn __state4<
         __TOKENS: Iterator<Item=Result<(i64, Tok, i64),__lalrpop_util::ParseError<i64, Tok, u64>>>,
     >(
         __tokens: &mut __TOKENS,
@@ -341,59 +268,6 @@ mod __parse__N0 {
             }
         }
     }
-
-    fn __state5<
-        __TOKENS: Iterator<Item=Result<(i64, Tok, i64),__lalrpop_util::ParseError<i64, Tok, u64>>>,
-    >(
-        __tokens: &mut __TOKENS,
-        __sym0: (i64, Tok, i64),
-        __sym1: (i64, Tok, i64),
-        _: core::marker::PhantomData<()>,
-    ) -> Result<(Option<(i64, Tok, i64)>, __Nonterminal<>), __lalrpop_util::ParseError<i64, Tok, u64>>
-    {
-        let mut __result: (Option<(i64, Tok, i64)>, __Nonterminal<>);
-        let __lookahead = match __tokens.next() {
-            Some(Ok(v)) => Some(v),
-            Some(Err(e)) => return Err(e),
-            None => None,
-        };
-        match __lookahead {
-            None => {
-                let __start = __sym0.0.clone();
-                let __end = __sym1.2.clone();
-                let __nt = super::__action13::<>(__sym0, __sym1);
-                let __nt = __Nonterminal::N0((
-                    __start,
-                    __nt,
-                    __end,
-                ));
-                __result = (__lookahead, __nt);
-                return Ok(__result);
-            }
-            _ => {
-                #[allow(clippy::needless_raw_string_hashes)]
-                let __expected = alloc::vec![
-                ];
-                return Err(
-                    match __lookahead {
-                        Some(__token) => {
-                            __lalrpop_util::ParseError::UnrecognizedToken {
-                                token: __token,
-                                expected: __expected,
-                            }
-                        }
-                        None => {
-                            let __location = __sym1.2.clone();
-                            __lalrpop_util::ParseError::UnrecognizedEof {
-                                location: __location,
-                                expected: __expected,
-                            }
-                        }
-                    }
-                )
-            }
-        }
-    }
 }
 #[allow(unused_imports)]
 pub use self::__parse__N0::N0Parser;
@@ -411,48 +285,57 @@ fn __action0<
 fn __action1<
 >(
     (_, l, _): (i64, i64, i64),
-    (_, pL0, _): (i64, i64, i64),
     (_, c0, _): (i64, Tok, i64),
     (_, c1, _): (i64, Tok, i64),
     (_, r, _): (i64, i64, i64),
 ) -> Tree
 {
-    { probe("N0#0", 0, 'L', pL0); node("N0#0", l, r, vec![Tree::from(c0), Tree::from(c1)]) }
+    node("N0#0", l, r, vec![Tree::from(c0), Tree::from(c1)])
 }
 
 #[allow(clippy::too_many_arguments, clippy::needless_lifetimes, clippy::just_underscores_and_digits, clippy::extra_unused_type_parameters)]
 fn __action2<
 >(
     (_, l, _): (i64, i64, i64),
+    (_, pR0, _): (i64, i64, i64),
+    (_, c0, _): (i64, Tok, i64),
+    (_, pL1, _): (i64, i64, i64),
+    (_, c1, _): (i64, Tok, i64),
+    (_, pR2, _): (i64, i64, i64),
+    (_, c2, _): (i64, Tree, i64),
+    (_, pR3, _): (i64, i64, i64),
+    (_, c3, _): (i64, Tree, i64),
     (_, r, _): (i64, i64, i64),
 ) -> Tree
 {
-    node("N0#1", l, r, vec![])
+    { probe("N1#0", 0, 'R', pR0); probe("N1#0", 1, 'L', pL1); probe("N1#0", 2, 'R', pR2); probe("N1#0", 3, 'R', pR3); node("N1#0", l, r, vec![Tree::from(c0), Tree::from(c1), Tree::from(c2), Tree::from(c3)]) }
 }
 
 #[allow(clippy::too_many_arguments, clippy::needless_lifetimes, clippy::just_underscores_and_digits, clippy::extra_unused_type_parameters)]
 fn __action3<
 >(
     (_, l, _): (i64, i64, i64),
+    (_, pR0, _): (i64, i64, i64),
     (_, c0, _): (i64, Tok, i64),
-    (_, pR1, _): (i64, i64, i64),
+    (_, pL1, _): (i64, i64, i64),
     (_, c1, _): (i64, Tok, i64),
     (_, r, _): (i64, i64, i64),
 ) -> Tree
 {
-    { probe("N0#2", 1, 'R', pR1); node("N0#2", l, r, vec![Tree::from(c0), Tree::from(c1)]) }
+    { probe("N1#1", 0, 'R', pR0); probe("N1#1", 1, 'L', pL1); node("N1#1", l, r, vec![Tree::from(c0), Tree::from(c1)]) }
 }
 
 #[allow(clippy::too_many_arguments, clippy::needless_lifetimes, clippy::just_underscores_and_digits, clippy::extra_unused_type_parameters)]
 fn __action4<
 >(
     (_, l, _): (i64, i64, i64),
+    (_, pR0, _): (i64, i64, i64),
     (_, c0, _): (i64, Tok, i64),
-    (_, pL1, _): (i64, i64, i64),
+    (_, pR1, _): (i64, i64, i64),
     (_, r, _): (i64, i64, i64),
 ) -> Tree
 {
-    { probe("N0#3", 1, 'L', pL1); node("N0#3", l, r, vec![Tree::from(c0)]) }
+    { probe("N1#2", 0, 'R', pR0); probe("N1#2", 1, 'R', pR1); node("N1#2", l, r, vec![Tree::from(c0)]) }
 }
 
 #[allow(clippy::needless_lifetimes, clippy::clone_on_copy)]
@@ -486,21 +369,13 @@ fn __action7<
 {
     let __start0 = __0.0.clone();
     let __end0 = __0.0.clone();
-    let __start1 = __0.0.clone();
-    let __end1 = __0.0.clone();
     let __temp0 = __action6(
         &__start0,
         &__end0,
     );
     let __temp0 = (__start0, __temp0, __end0);
-    let __temp1 = __action6(
-        &__start1,
-        &__end1,
-    );
-    let __temp1 = (__start1, __temp1, __end1);
     __action1(
         __temp0,
-        __temp1,
         __0,
         __1,
         __2,
@@ -512,59 +387,19 @@ fn __action7<
 fn __action8<
 >(
     __0: (i64, i64, i64),
-) -> Tree
-{
-    let __start0 = __0.0.clone();
-    let __end0 = __0.0.clone();
-    let __temp0 = __action6(
-        &__start0,
-        &__end0,
-    );
-    let __temp0 = (__start0, __temp0, __end0);
-    __action2(
-        __temp0,
-        __0,
-    )
-}
-
-#[allow(clippy::too_many_arguments, clippy::needless_lifetimes,
-    clippy::just_underscores_and_digits, clippy::clone_on_copy, clippy::unit_arg)]
-fn __action9<
->(
-    __0: (i64, Tok, i64),
-    __1: (i64, i64, i64),
+    __1: (i64, Tok, i64),
     __2: (i64, Tok, i64),
     __3: (i64, i64, i64),
+    __4: (i64, Tree, i64),
+    __5: (i64, i64, i64),
+    __6: (i64, Tree, i64),
+    __7: (i64, i64, i64),
 ) -> Tree
 {
     let __start0 = __0.0.clone();
     let __end0 = __0.0.clone();
-    let __temp0 = __action6(
-        &__start0,
-        &__end0,
-    );
-    let __temp0 = (__start0, __temp0, __end0);
-    __action3(
-        __temp0,
-        __0,
-        __1,
-        __2,
-        __3,
-    )
-}
-
-#[allow(clippy::too_many_arguments, clippy::needless_lifetimes,
-    clippy::just_underscores_and_digits, clippy::clone_on_copy, clippy::unit_arg)]
-fn __action10<
->(
-    __0: (i64, Tok, i64),
-    __1: (i64, i64, i64),
-) -> Tree
-{
-    let __start0 = __0.0.clone();
-    let __end0 = __0.0.clone();
-    let __start1 = __0.2.clone();
-    let __end1 = __1.0.clone();
+    let __start1 = __1.2.clone();
+    let __end1 = __2.0.clone();
     let __temp0 = __action6(
         &__start0,
         &__end0,
@@ -575,11 +410,77 @@ fn __action10<
         &__end1,
     );
     let __temp1 = (__start1, __temp1, __end1);
+    __action2(
+        __temp0,
+        __0,
+        __1,
+        __temp1,
+        __2,
+        __3,
+        __4,
+        __5,
+        __6,
+        __7,
+    )
+}
+
+#[allow(clippy::too_many_arguments, clippy::needless_lifetimes,
+    clippy::just_underscores_and_digits, clippy::clone_on_copy, clippy::unit_arg)]
+fn __action9<
+>(
+    __0: (i64, i64, i64),
+    __1: (i64, Tok, i64),
+    __2: (i64, Tok, i64),
+    __3: (i64, i64, i64),
+) -> Tree
+{
+    let __start0 = __0.0.clone();
+    let __end0 = __0.0.clone();
+    let __start1 = __1.2.clone();
+    let __end1 = __2.0.clone();
+    let __temp0 = __action6(
+        &__start0,
+        &__end0,
+    );
+    let __temp0 = (__start0, __temp0, __end0);
+    let __temp1 = __action6(
+        &__start1,
+        &__end1,
+    );
+    let __temp1 = (__start1, __temp1, __end1);
+    __action3(
+        __temp0,
+        __0,
+        __1,
+        __temp1,
+        __2,
+        __3,
+    )
+}
+
+#[allow(clippy::too_many_arguments, clippy::needless_lifetimes,
+    clippy::just_underscores_and_digits, clippy::clone_on_copy, clippy::unit_arg)]
+fn __action10<
+>(
+    __0: (i64, i64, i64),
+    __1: (i64, Tok, i64),
+    __2: (i64, i64, i64),
+    __3: (i64, i64, i64),
+) -> Tree
+{
+    let __start0 = __0.0.clone();
+    let __end0 = __0.0.clone();
+    let __temp0 = __action6(
+        &__start0,
+        &__end0,
+    );
+    let __temp0 = (__start0, __temp0, __end0);
     __action4(
         __temp0,
         __0,
-        __temp1,
         __1,
+        __2,
+        __3,
     )
 }
 
@@ -609,19 +510,49 @@ fn __action11<
     clippy::just_underscores_and_digits, clippy::clone_on_copy, clippy::unit_arg)]
 fn __action12<
 >(
-    __lookbehind: &i64,
-    __lookahead: &i64,
+    __0: (i64, Tok, i64),
+    __1: (i64, Tok, i64),
+    __2: (i64, Tree, i64),
+    __3: (i64, Tree, i64),
 ) -> Tree
 {
-    let __start0 = __lookbehind.clone();
-    let __end0 = __lookahead.clone();
+    let __start0 = __0.0.clone();
+    let __end0 = __0.0.clone();
+    let __start1 = __1.2.clone();
+    let __end1 = __2.0.clone();
+    let __start2 = __2.2.clone();
+    let __end2 = __3.0.clone();
+    let __start3 = __3.2.clone();
+    let __end3 = __3.2.clone();
     let __temp0 = __action5(
         &__start0,
         &__end0,
     );
     let __temp0 = (__start0, __temp0, __end0);
+    let __temp1 = __action5(
+        &__start1,
+        &__end1,
+    );
+    let __temp1 = (__start1, __temp1, __end1);
+    let __temp2 = __action5(
+        &__start2,
+        &__end2,
+    );
+    let __temp2 = (__start2, __temp2, __end2);
+    let __temp3 = __action5(
+        &__start3,
+        &__end3,
+    );
+    let __temp3 = (__start3, __temp3, __end3);
     __action8(
         __temp0,
+        __0,
+        __1,
+        __temp1,
+        __2,
+        __temp2,
+        __3,
+        __temp3,
     )
 }
 
@@ -633,8 +564,8 @@ fn __action13<
     __1: (i64, Tok, i64),
 ) -> Tree
 {
-    let __start0 = __0.2.clone();
-    let __end0 = __1.0.clone();
+    let __start0 = __0.0.clone();
+    let __end0 = __0.0.clone();
     let __start1 = __1.2.clone();
     let __end1 = __1.2.clone();
     let __temp0 = __action5(
@@ -648,8 +579,8 @@ fn __action13<
     );
     let __temp1 = (__start1, __temp1, __end1);
     __action9(
-        __0,
         __temp0,
+        __0,
         __1,
         __temp1,
     )
@@ -662,16 +593,32 @@ fn __action14<
     __0: (i64, Tok, i64),
 ) -> Tree
 {
-    let __start0 = __0.2.clone();
-    let __end0 = __0.2.clone();
+    let __start0 = __0.0.clone();
+    let __end0 = __0.0.clone();
+    let __start1 = __0.2.clone();
+    let __end1 = __0.2.clone();
+    let __start2 = __0.2.clone();
+    let __end2 = __0.2.clone();
     let __temp0 = __action5(
         &__start0,
         &__end0,
     );
     let __temp0 = (__start0, __temp0, __end0);
+    let __temp1 = __action5(
+        &__start1,
+        &__end1,
+    );
+    let __temp1 = (__start1, __temp1, __end1);
+    let __temp2 = __action5(
+        &__start2,
+        &__end2,
+    );
+    let __temp2 = (__start2, __temp2, __end2);
     __action10(
-        __0,
         __temp0,
+        __0,
+        __temp1,
+        __temp2,
     )
 }
 
